@@ -1,0 +1,15 @@
+//go:build verif
+
+// Machine-checked contracts for package compresshttp (comment-only; see /verif/DESIGN.md).
+
+package compresshttp
+
+//@ func compress
+//@   property C09
+//@   ghost copied bool = false
+//@   ghost closed bool = false
+//@   before call setupCompression(enc, ww): assert @compressor_for_the_negotiated_encoding_writes_to_the_given_writer enc == encoding && ww == w
+//@   before call io.Copy(dst, src): assert @the_whole_upload_stream_goes_through_the_compressor src == r && dst == iface(compr) && !copied
+//@   on call io.Copy(_, _) ret (n, e): copied = (e == nil)
+//@   on call invoke io.Closer.Close(c) ret (e): closed = (e == nil && copied)
+//@   ensures @success_only_when_source_was_read_to_its_end_and_the_stream_closed ret0 == nil ==> copied && closed
